@@ -2,8 +2,8 @@
 
 Proof: lean/SamVerif/Props/C05.lean over the scanner model Model/Lexer.lean (+ parser progress
 skeletons Model/ParserLoops.lean).  Tie, re-checked on every run:
-  * translator extract/c05_keywords.py regenerates Generated/Keywords.lean (token tables) from
-    crates/samlang-parser/src/lexer.rs,
+  * translators extract/c05_keywords.py (token tables -> Generated/Keywords.lean) and
+    extract/c05_parser_loops.py (which recovery arms consume a token -> Generated/ParserLoops.lean),
   * protocol `lex`: the real TokenProducer (hook H6, harness/src/bin/c05.rs) and the Lean model
     (Driver/C05.lean) tokenise the same texts; kinds, texts, spans, syntax errors and panics must be
     equal.
@@ -244,7 +244,7 @@ def lex_oracle(text_bytes, ans):
     for k, t, span in toks:
         if k == "error" and (span, "tok") not in es:
             bad.append(f"error token at {span} without an 'Invalid token.' diagnostic")
-        if k == "int" and t.isdigit() and int(t) > TWO31 and (span, "int") not in es:
+        if k == "int" and t.isdigit() and int(t) >= TWO31 and (span, "int") not in es:
             bad.append(f"integer literal {t.decode()} at {span} without a 'Not a 32-bit integer.' diagnostic")
     return bad
 
@@ -450,13 +450,15 @@ def repo_sources():
     return out
 
 
-def run_extractor(ctx):
-    rc, out = common.sh([sys.executable, os.path.join(common.VERIF, "extract", "c05_keywords.py")], cwd=common.VERIF)
-    if rc != 0:
-        ctx.violation("translator extract/c05_keywords.py can no longer read the lexer's token tables: " + out.strip()[-300:],
-                      {"broken": "extract/c05_keywords.py -> Generated/Keywords.lean", "log": out[-2000:]}, no_input=True)
-        return False
-    return True
+def run_extractor(ctx, scripts=("c05_keywords.py", "c05_parser_loops.py")):
+    ok = True
+    for script in scripts:
+        rc, out = common.sh([sys.executable, os.path.join(common.VERIF, "extract", script)], cwd=common.VERIF)
+        if rc != 0:
+            ok = False
+            ctx.violation(f"translator extract/{script} can no longer read the source it models: " + out.strip()[-300:],
+                          {"broken": f"extract/{script} -> lean/SamVerif/Generated", "log": out[-2000:]}, no_input=True)
+    return ok
 
 
 def read_corpus(prop):
@@ -611,17 +613,18 @@ def run(ctx):
         "full_answer_histogram": stats["full"], "full_outcome_histogram": stats["outcome"],
         "limits": {"max_text_bytes_quick": 9000, "nesting_depth": depth, "stack": "64 MiB (worker thread and rayon pool)",
                    "watchdog_ms": ctx.scale(10000, 120000)},
-        "partial_theorems": {"scan_total_partial": "text does not contain the four bytes /**/ (hasEmptyDoc = false)",
-                             "int_range_reported_partial": "literal value > 2^31 (the value 2^31 itself passes unreported after any token: a C06 finding, see DESIGN P11)"},
+        "partial_theorems": {},
         "pending": ["parser recursion depth (stack) is explored by the `full` oracle only",
-                    "logos' generated DFA is abstracted as longest match over the generated tables"],
+                    "logos' generated DFA is abstracted as longest match over the generated tables",
+                    "parser loop skeletons: class-member loop and match-arm loop are not modelled (top-level, comma-list and block loops are)"],
         "extractor_ok": extractor_ok,
     })
     ctx.assumptions += ["input is valid UTF-8 (&str); `Valid` in the theorems is weaker than UTF-8 well-formedness",
                         "texts < 4 GiB (u32 line/column counters)",
                         "reasonably sized = <= 64 KiB and nesting depth <= 2000 with 64 MiB stacks (quick tier: depth <= 200)"]
     return ctx.finish(res, trusted=common.TRUSTED_COMMON + [
-        "translator extract/c05_keywords.py (anchored regexes over LogosToken / next_token / as_str)",
+        "translators extract/c05_keywords.py (anchored regexes over LogosToken / next_token / as_str) and extract/c05_parser_loops.py (anchors in parse_module / comma list / parse_block)",
+        "parser loop skeletons Model/ParserLoops.lean are hand-written; only the consume-facts of their recovery arms are extracted (the skeleton shape is checked by the extractor's anchors and exercised by the hang oracle)",
         "hand-written scanner model Model/Lexer.lean; logos' DFA abstracted as longest match (literal beats regex on ties), checked by the `lex` correspondence",
         "not modelled (oracle only): the recursive-descent parser productions beyond the loop skeletons, checker, printers, compiler back half, Rust stack depth"])
 
